@@ -999,6 +999,8 @@ func runST(id string, c *Case) string {
 
 // ---------------------------------------------------------------- concurrent pushes of one digest (oracle only)
 
+var ccRetry bool
+
 func runCC(id string, c *Case) string {
 	e := newEnv(c.Kind)
 	defer e.close()
@@ -1041,7 +1043,23 @@ func runCC(id string, c *Case) string {
 			errs[i] = e.st.Push(ctx, descOf(c.Pushes[i]), r)
 		}(i)
 	}
-	wg.Wait()
+	// no push may wedge: a watchdog turns a blocked race into a verdict (re-confirmed once)
+	doneCh := make(chan struct{})
+	go func() { wg.Wait(); close(doneCh) }()
+	select {
+	case <-doneCh:
+	case <-time.After(20 * time.Second):
+		close(stop)
+		if !ccRetry {
+			ccRetry = true
+			run.Count("cc:watchdog-retry")
+			out := runCC(id, c)
+			ccRetry = false
+			return out
+		}
+		fail(id, "push-wedged", fmt.Sprintf("concurrent pushes on %s did not return within 20s (twice)", c.Kind), c)
+		return "-"
+	}
 	close(stop)
 	obsWG.Wait()
 	if badSeen != "" {
